@@ -1,6 +1,7 @@
 //! Correspondence / search harness: calls the real `asca` crate (built from /repo's working tree with
 //! `--features verif`) in-process and prints canonical lines that `/verif/check` diffs against the Lean
 //! model driver, or evaluates a property directly on the implementation (search).
+mod c02;
 mod c04;
 mod c05;
 mod c18;
@@ -27,6 +28,7 @@ fn main() {
         "c09-spec" => words::c09(rest),
         "render-all" => words::render_all(rest),
         "interp-ops" => interp::ops(rest),
+        "c02-spec" => c02::spec(rest),
         "c03-spec" => frag::spec(rest),
         "c06-spec" => props::c06(rest),
         "c07-spec" => props::c07(rest),
